@@ -240,7 +240,7 @@ func extractTarGz(tarGzFile, dest string) error {
 			return err
 		}
 		target := filepath.Join(dest, header.Name)
-		if !strings.HasPrefix(target, filepath.Clean(dest)+string(os.PathSeparator)) {
+		if target != filepath.Clean(dest) && !strings.HasPrefix(target, filepath.Clean(dest)+string(os.PathSeparator)) {
 			return fmt.Errorf("%s: illegal file path", target)
 		}
 		switch header.Typeflag {
